@@ -10,6 +10,11 @@ MODULE = "Poupool.Properties.C06"
 def run(chk):
     from vlib import lean as _lean
     ac.run_actor_property(chk, MODULE, THEOREMS, monitor_pids=["C06"], extra=globals().get("extra"))
+    from checks import altcfg as _alt
+    _alt.binding(chk, ['heating'])
+    _alt.explore(chk, [chk.pid])
+    from checks import main_wiring as _mw
+    _mw.run(chk, [chk.pid])
     ac.timing_theorems(chk, TIMING)
     _lean.check_theorems(chk, "Poupool.Properties.Compose", COMPOSE)
 
